@@ -52,6 +52,11 @@ def gen_scenario(seed, idx):
     n = r.randint(2, 8 if not small else 5)
     ss = gen.source_set(gen.rng(seed, "c08", idx, "names"), n, dirs=dirs, small=small)
     srcs = {p: c for p, c, _ in ss}
+    if r.random() < 0.2:  # a sequence long enough for the hashed glyph-name fallback (> 63 characters)
+        from checks.c10 import long_sequence
+
+        cps = long_sequence(r, r.randint(11, 14))
+        srcs[dirs[0] + "/" + gen.file_stem(r, cps) + ".svg"] = gen.content(r, small)
     # same file name in two directories exercises the 1..N disambiguation of intermediates
     if r.random() < 0.25 and kind == "two-configs" and len(ss) >= 2:
         pass
@@ -147,7 +152,10 @@ def build_job(seed, idx, sc, vi, var):
             cfgs.append(("second.toml", sc["opts2"], sc["srcs2"]))
         for name, o, paths in cfgs:
             ops.append({"op": "write", "path": proj + "/" + name, "content": "text:" + gen.toml_config(o, srcs_for(paths))})
-        argv += [ref_path(name) for name, _, _ in cfgs]  # the order of configurations is part of the scenario
+        order = [name for name, _, _ in cfgs]
+        if var["argv_perm"] and len(order) > 1 and r.random() < 0.5:
+            order.reverse()  # the order of configuration files is an order of command-line arguments too
+        argv += [ref_path(name) for name in order]
     sched = {"j": 1, "policy": "manifest", "seed": 0, "exec_at": "finish"} if vi == 0 else var["sched"]
     ops.append({"op": "invoke", "cwd": cwd, "argv": argv, "build_dir": build_dir, "label": "build", "sched": sched, "final": True})
     jid = "c08-%d-%d.v%d" % (seed, idx, vi)
